@@ -46,4 +46,15 @@ var directed = []string{
 	"a AND b OR NOT c", "a hasPrefix b", "a HASSUFFIX b", "a NOTIN b", "TRUE", "False", "NULL", "IF a {\n} ELIF b {\n} ELSE {\n}", "FOR a IN b {\n}", "x := 1E+02", "x := 1.50", "x := 0x10", "x := 1e+3",
 	"a +\nb", "a\n+ b", "f(\na,\nb\n)", "a.\nb", "a\n.b", "x := [\n1, 2\n]", "if a\n{\n}\nelse\n{\n}",
 	"a := 1\nb := 2\n\n# trailing", "a := 1\n/* trailing */",
+	// shapes found by the generated search (each one failed on the unrepaired tree)
+	"a; -b", "a; +b * c", "f(0);\n-(0 + l[0]) + 0", "a := -(b);\n(0 + 0) * 2", "a := f(1);\n(b + c) * d", "if x {\n    a; -b\n}",
+	"func f() {\n    return\n    -2\n}", "func f() {\n    return\n    +7 - 1\n    g()\n}", "(return) + 1", "(return 1) and x",
+	"x := [1 # c\n, -3, 4, 5, 6]", "x := [a # c\n, (b + c) * 2, 4, 5, 6]", "x := {1 : 2 # c\n, -3 : 4, 5 : 6}", "x := {0 : s, 0 : 0 + #\n 0, 0 : not true}",
+	"if true {\n    a\n}", "if true {\n    a\n} elif true {\n    b\n}", "if true {\n} else {\n    b\n}",
+	"x := 0 < # c\n 0\n\ny", "a # c\n\nb", "a # c\n\n\n\nb", "0 /*c*/ + 0", "a\n\n0 /*c*/ + 0", "/* x */ a /* c */ + b", "a\n/* x */ b /* c */ + c",
+	"x := [/* c */ 1, 2, 3, 4, 5]", "x := [\n\n/* c */ 1, 2, 3, 4, 5]", "func f() {\n    return 0 + 0 /* two\n   lines */ + (0 + 0)\n}", "return /* c */ 1", "return /* a\nb */ 1",
+	"x := {\"w\" : true\n\n  and\n( true ), \"a\" : 1, \"b\" : 2}", "a\n\n:= 1", "x := 1 + # c\n (2 + 3)", "x := (a + b) /* c */ * 2", "f(a # c\n, b)",
+	"x := a * (b + c # cmt\n)", "(\n\na + b) * 2", "(/* c */ a + b) * 2", "name /* foo\n\t\tbar\n    x*/ 'b/* - */la' /*test*/",
+	"Foo := {\n  \"super\" : [ Bar ]\n\n  # Object ID\n  #\n  \"id\" : 0\n\n  \"idx\" : 0\n\n  # Constructor\n  #\n  \"init\" : 1\n}",
+	"mutex a {\n}\n\n\n/* c */\n\nb", "import \"a\" as b\n\n/* c */\n\nfor a in b {\n}", "sink a\n    priority -1\n    suppresses []\n{\n}", "let [a, b] := c\nlet     [a, b] := c",
 }
